@@ -116,25 +116,25 @@ Proof.
   apply N.compare_lt_iff in H. now rewrite H.
 Qed.
 
-(* A wildcard key h (only stars) that matches nh sorts, reversed, strictly before every
-   string that begins with the reverse of a longer suffix T of nh, provided the bytes of
-   nh are above '*' in byte order (all host-name bytes are). *)
+(* A wildcard key h that matches nh sorts, reversed, strictly before every string that
+   begins with the reverse of a longer suffix T of nh, provided the metacharacter that
+   precedes h's literal tail is below the byte of nh at that place. *)
 Lemma longer_tail_first h nh T R :
-  has_meta h = true -> star_only h = true -> glob_match h nh = true ->
-  (forall c, In c nh -> 42 < c) ->
+  has_meta h = true -> glob_match h nh = true ->
   (exists x, nh = x ++ T) -> (length (lit_tail h) < length T)%nat ->
+  (forall m d, is_meta m = true ->
+     nth_error (rev h) (length (lit_tail h)) = Some m ->
+     nth_error (rev nh) (length (lit_tail h)) = Some d -> m < d) ->
   str_ltb (rev h) (rev T ++ R) = true.
 Proof.
-  intros Hmeta Hstar Hmatch Hbytes [x Hx] Hlen.
+  intros Hmeta Hmatch [x Hx] Hlen Hmd.
   destruct (tail_suffix h nh Hmatch) as [x0 Hx0].
   set (t := lit_tail h) in *.
-  (* T = y ++ t with y non-empty *)
   assert (HT : exists y, T = y ++ t /\ y <> []).
   { rewrite Hx0 in Hx. apply app_eq_app in Hx as [l [[_ E] | [_ E]]].
     - exists l. split; [exact E|]. intros ->. cbn in E. subst T. lia.
     - exfalso. rewrite E, app_length in Hlen. lia. }
   destruct HT as (y & -> & Hy).
-  (* rev h = rev t ++ '*' :: _ *)
   destruct (take_lits_split (rev h)) as (rest & E & _ & Hrest).
   assert (Et : take_lits (rev h) = rev t).
   { unfold t, lit_tail. now rewrite rev_involutive. }
@@ -143,47 +143,64 @@ Proof.
   { exfalso. rewrite app_nil_r in E. unfold has_meta in Hmeta.
     rewrite <- (existsb_rev is_meta h), E, existsb_rev in Hmeta.
     fold (has_meta t) in Hmeta. unfold t in Hmeta. rewrite has_meta_lit_tail in Hmeta. discriminate. }
-  assert (Em : m = 42).
-  { unfold is_meta in Hm. apply orb_true_iff in Hm as [Hm | Hm]; [now apply N.eqb_eq in Hm|].
-    exfalso. unfold star_only in Hstar. apply negb_true_iff in Hstar.
-    assert (Hin : In m h). { apply in_rev. rewrite E. apply in_or_app. right. now left. }
-    rewrite (existsb_false _ _ _ Hstar Hin) in Hm. discriminate. }
-  subst m. rewrite E, rev_app_distr, <- app_assoc, str_ltb_app_common.
   destruct (rev y) as [|d ry] eqn:Ey.
   { exfalso. apply Hy. apply (f_equal (@rev N)) in Ey. now rewrite rev_involutive in Ey. }
-  cbn [app]. apply str_ltb_head. apply Hbytes. rewrite Hx. apply in_or_app. right.
-  apply in_or_app. left. apply in_rev. rewrite Ey. now left.
+  assert (Hlt : m < d).
+  { apply Hmd; [exact Hm | |].
+    - rewrite E. rewrite nth_error_app2 by (rewrite rev_length; lia).
+      rewrite rev_length, Nat.sub_diag. reflexivity.
+    - rewrite Hx, !rev_app_distr, <- app_assoc.
+      rewrite nth_error_app2 by (rewrite rev_length; lia).
+      rewrite rev_length, Nat.sub_diag, Ey. reflexivity. }
+  rewrite E, rev_app_distr, <- app_assoc, str_ltb_app_common, Ey.
+  cbn [app]. now apply str_ltb_head.
 Qed.
 
 (* ------------------------------------------------------------------ *)
-(** * The host list is sorted by reversed name, descending *)
+(** * Shape of the host list: a list sorted by reversed name, descending, then the
+      exact hosts moved to the front *)
 Definition rev_ge (a b : str) : Prop := str_ltb (rev a) (rev b) = false.
+Definition nonexact (h : str) : bool := negb (is_exact_host h).
 
 Lemma sorted_map_rev S :
-  StronglySorted (kge (fun x : str => x)) S -> StronglySorted rev_ge (map (@rev N) S).
+  StronglySorted (kge str_ltb) S -> StronglySorted rev_ge (map (@rev N) S).
 Proof.
   induction 1 as [|a S Hs IH Hall]; cbn [map]; constructor; [exact IH|].
   apply Forall_forall. intros y Hy. apply in_map_iff in Hy as [z [<- Hz]].
   rewrite Forall_forall in Hall. unfold rev_ge. rewrite !rev_involutive. now apply Hall.
 Qed.
 
-Lemma sort_hosts_sorted l :
-  (forall k, In k l -> has_colon k = false) -> StronglySorted rev_ge (sort_hosts_rhp l).
+Lemma sorted_weaken {A} (R R' : A -> A -> Prop) l :
+  StronglySorted R l -> (forall a b, In a l -> In b l -> R a b -> R' a b) -> StronglySorted R' l.
+Proof.
+  induction 1 as [|a l Hs IH Hall]; intros Himp; constructor.
+  - apply IH. intros x y Hx Hy. apply Himp; now right.
+  - rewrite Forall_forall in Hall |- *. intros y Hy.
+    apply Himp; [now left | now right | now apply Hall].
+Qed.
+
+(* for hosts without a colon the sort order is the byte order of the reversed names *)
+Lemma host_ge_rev_ge a b :
+  has_colon a = false -> has_colon b = false -> host_ltb a b = false -> rev_ge a b.
+Proof.
+  intros Ca Cb H. unfold host_ltb in H. rewrite (rhp_nocolon a Ca), (rhp_nocolon b Cb) in H.
+  unfold rev_ge. destruct (beq (rev a) (rev b)) eqn:E; [|exact H].
+  apply beq_eq in E. rewrite E. apply str_ltb_irrefl.
+Qed.
+
+Lemma sort_hosts_shape l :
+  (forall k, In k l -> has_colon k = false) ->
+  exists S, StronglySorted rev_ge S /\ sort_hosts_rhp l = partition_exact S.
 Proof.
   intros Hc. destruct l as [|a [|b l]].
-  - constructor.
-  - constructor; constructor.
-  - set (L := a :: b :: l) in *.
-    change (sort_hosts_rhp L) with
-      (map reverse_host_port (sort_desc (fun x => x) (map reverse_host_port L))).
-    assert (E1 : map reverse_host_port L = map (@rev N) L).
-    { apply map_ext_in. intros k Hk. apply rhp_nocolon. now apply Hc. }
-    rewrite E1.
-    assert (E2 : map reverse_host_port (sort_desc (fun x => x) (map (@rev N) L))
-                 = map (@rev N) (sort_desc (fun x => x) (map (@rev N) L))).
-    { apply map_ext_in. intros k Hk. apply rhp_nocolon. apply sort_desc_in in Hk.
-      apply in_map_iff in Hk as [k0 [<- Hk0]]. rewrite has_colon_rev. now apply Hc. }
-    rewrite E2. apply sorted_map_rev. apply sort_desc_sorted.
+  - exists []. split; [constructor | reflexivity].
+  - exists [a]. split; [constructor; constructor|].
+    unfold partition_exact. cbn [filter sort_hosts_rhp]. destruct (is_exact_host a); reflexivity.
+  - set (L := a :: b :: l) in *. exists (sort_desc host_ltb L). split; [|reflexivity].
+    apply (sorted_weaken (kge host_ltb)).
+    + apply sort_desc_sorted; [apply host_ltb_asym | apply host_ltb_ge_trans].
+    + intros x y Hx Hy. apply sort_desc_in in Hx. apply sort_desc_in in Hy.
+      apply host_ge_rev_ge; now apply Hc.
 Qed.
 
 Lemma sorted_snoc_nil l : StronglySorted rev_ge l -> StronglySorted rev_ge (l ++ [[]]).
@@ -203,16 +220,38 @@ Proof.
   - inversion Hs; subst. now apply IH.
 Qed.
 
+(* an element that is not in the front part sits in the back part, with the same successors *)
+Lemma app_split_right {A} (E X : list A) l1 h l2 :
+  E ++ X = l1 ++ h :: l2 -> ~ In h E -> exists l1', X = l1' ++ h :: l2.
+Proof.
+  revert l1. induction E as [|e E IH]; intros l1 H Hn.
+  - now exists l1.
+  - destruct l1 as [|a l1]; cbn [app] in H; injection H as He H.
+    + exfalso. apply Hn. left. exact He.
+    + apply (IH l1 H). intros Hin. apply Hn. now right.
+Qed.
+
+(* the element appended last has no successors *)
+Lemma snoc_split_last {A} (l : list A) x l1 l2 :
+  l ++ [x] = l1 ++ x :: l2 -> ~ In x l -> l2 = [].
+Proof.
+  intros H Hn. destruct (app_split_right l [x] l1 x l2 H Hn) as [l1' E].
+  destruct l1' as [|a l1']; cbn [app] in E.
+  - now injection E as <-.
+  - injection E as _ E. destruct l1'; discriminate.
+Qed.
+
 (* ------------------------------------------------------------------ *)
 (** * The domain *)
-Definition key_plain (k : str) : Prop := lower k = k /\ has_colon k = false.
+Definition key_plain (k : str) : Prop :=
+  lower k = k /\ has_colon k = false /\ existsb is_unmodelled k = false.
 Definition table_ok (t : table) : Prop :=
   Forall key_plain (keys t) /\ NoDup (keys t) /\ table_sorted t.
 
 Lemma table_ok_wf t : table_ok t -> wf_keys t.
 Proof.
   intros [H _]. unfold wf_keys. rewrite Forall_forall in H |- *. intros k Hk.
-  destruct (H k Hk) as [Hl Hc]. split; [exact Hl | now apply rhp_stable_nocolon].
+  now destruct (H k Hk) as (Hl & _).
 Qed.
 
 Lemma has_suffix_colon k r : has_colon k = false -> has_colon r = true -> has_suffix k r = false.
@@ -224,7 +263,7 @@ Qed.
 
 Lemma normalize_plain k tls : key_plain k -> normalize_host k tls = k.
 Proof.
-  intros [Hl Hc]. unfold normalize_host, strip_port.
+  intros (Hl & Hc & _). unfold normalize_host, strip_port.
   rewrite (has_suffix_colon k s_80 Hc eq_refl), (has_suffix_colon k s_443 Hc eq_refl).
   rewrite !andb_false_r. exact Hl.
 Qed.
@@ -232,52 +271,23 @@ Qed.
 Lemma host_part_plain k : has_colon k = false -> host_part k = k.
 Proof. intros H. unfold host_part. unfold has_colon in H. now rewrite (last_index_byte_none _ _ H). Qed.
 
-Lemma region_none t globoff tls m host uri :
-  region t globoff tls m host uri = None ->
-  F_C03_colon_key t = false /\
-  F_C03_gobwas_overlap globoff tls m t host uri = false /\ F_C03_iprefix_case m t = false /\
-  F_C03_empty_star globoff tls t host = false /\ F_C03_metachar_order globoff t = false.
+(* for non-empty keys without class / alternation / escape syntax the code's notion of an
+   exact host (non-empty, none of * ? [ { \) is the specification's (no metacharacter) *)
+Lemma glob_char_plain k :
+  existsb is_unmodelled k = false -> existsb is_glob_char k = existsb is_meta k.
 Proof.
-  unfold region.
-  destruct (F_C03_colon_key t); [discriminate|].
-  destruct (F_C03_gobwas_overlap globoff tls m t host uri); [discriminate|].
-  destruct (F_C03_iprefix_case m t); [discriminate|].
-  destruct (F_C03_empty_star globoff tls t host); [discriminate|].
-  destruct (F_C03_metachar_order globoff t); [discriminate|].
-  intros _. repeat split.
+  induction k as [|c k IH]; [reflexivity|]. cbn [existsb]. intros Hu.
+  apply orb_false_iff in Hu as [Hc Hu]. rewrite (IH Hu). f_equal.
+  unfold is_glob_char, is_meta, ch_star, ch_qm. unfold is_unmodelled in Hc.
+  apply orb_false_iff in Hc as [Hc H92]. apply orb_false_iff in Hc as [H91 H123].
+  rewrite H91, H123, H92. now rewrite !orb_false_r.
 Qed.
 
-(* ------------------------------------------------------------------ *)
-(** * Longest path within a host, for the two prefix matchers *)
-Lemma lookup1_longest t h uri m k p id :
-  table_sorted t -> F_C03_iprefix_case m t = false -> is_prefix_matcher m = true ->
-  lookup1 t h uri m = Some (k, p, id) ->
-  forall p' id', In (p', id') (assoc t k) -> path_match m uri p' = true ->
-                 (length p' <= length p)%nat.
+Lemma is_exact_plain k : key_plain k -> k <> [] -> is_exact_host k = negb (has_meta k).
 Proof.
-  intros Hs Hreg Hpm H1 p' id' Hin Hm. apply lookup1_some in H1 as [_ Hfind].
-  pose proof (find_sorted_max (fun r : route => fst r) _ _ _ (p', id')
-                (assoc_sorted t k Hs) Hfind Hin Hm) as Hge.
-  unfold kge in Hge. cbn [fst] in Hge.
-  apply find_some in Hfind as [Hinp Hp]. cbn [fst] in Hp.
-  destruct (Nat.leb (length p') (length p)) eqn:E; [now apply Nat.leb_le in E|].
-  apply Nat.leb_gt in E. destruct m; [| |discriminate]; cbn [path_match] in Hp, Hm.
-  - rewrite (prefix_shorter_lt p uri p' Hp Hm E) in Hge. discriminate.
-  - cbn [F_C03_iprefix_case] in Hreg.
-    pose proof (existsb_false _ _ _ Hreg (assoc_in_all _ _ _ _ Hinp)) as U1.
-    pose proof (existsb_false _ _ _ Hreg (assoc_in_all _ _ _ _ Hin)) as U2.
-    cbn [fst snd] in U1, U2.
-    rewrite (lower_no_upper _ U1) in Hp. rewrite (lower_no_upper _ U2) in Hm.
-    rewrite (prefix_shorter_lt p (lower uri) p' Hp Hm E) in Hge. discriminate.
+  intros (_ & _ & Hu) Hk. destruct k as [|c k]; [congruence|].
+  unfold is_exact_host, has_meta. now rewrite (glob_char_plain _ Hu).
 Qed.
-
-(* ------------------------------------------------------------------ *)
-(** * Host order: a key tried later never beats a key tried earlier *)
-Lemma host_beats_irrefl a : host_beats a a = false.
-Proof. destruct a; cbn [host_beats]; try reflexivity. apply Nat.ltb_irrefl. Qed.
-
-Lemma host_beats_none a : host_beats HNone a = false.
-Proof. destruct a; reflexivity. Qed.
 
 Lemma rev_ge_nil k : rev_ge [] k -> k = [].
 Proof.
@@ -285,76 +295,27 @@ Proof.
   intros _. apply (f_equal (@rev N)) in E. now rewrite rev_involutive in E.
 Qed.
 
-(* both keys match the host with glob matching enabled; h is tried before k' *)
-Lemma later_never_beats_glob tls t host h k' :
-  table_ok t ->
-  F_C03_empty_star false tls t host = false -> F_C03_metachar_order false t = false ->
-  (forall c, In c (normalize_host host tls) -> 42 < c) ->
-  In h (keys t) -> In k' (keys t) ->
-  glob_match h (normalize_host host tls) = true ->
-  glob_match k' (normalize_host host tls) = true ->
-  rev_ge h k' ->
-  host_beats (host_class false tls k') (host_class false tls h) = false.
+Lemma region_none t globoff tls m host uri :
+  region t globoff tls m host uri = None ->
+  F_C03_gobwas_overlap globoff tls m t host uri = false /\
+  F_C03_metachar_order globoff tls t host = false.
 Proof.
-  intros Hok H4 H3 Hbytes Hh Hk' Mh Mk' Hge.
-  destruct Hok as [Hplain _]. rewrite Forall_forall in Hplain.
-  pose proof (Hplain h Hh) as Ph. pose proof (Hplain k' Hk') as Pk'.
-  unfold host_class. rewrite (normalize_plain h tls Ph), (normalize_plain k' tls Pk').
-  destruct Ph as [_ Ch]. destruct Pk' as [_ Ck'].
-  rewrite (host_part_plain h Ch), (host_part_plain k' Ck'). cbn [orb].
-  set (nh := normalize_host host tls) in *.
-  destruct k' as [|c' k0']; [cbn [is_nil]; apply host_beats_none|].
-  set (k' := c' :: k0') in *.
-  destruct h as [|ch h0].
-  { apply rev_ge_nil in Hge. discriminate. }
-  set (h := ch :: h0) in *. cbn [is_nil].
-  (* facts from the regions *)
-  assert (Sh : star_only h = true).
-  { unfold F_C03_metachar_order in H3. cbn [negb andb] in H3.
-    pose proof (existsb_false _ _ _ H3 Hh) as E. now apply negb_false_iff in E. }
-  assert (Sk' : star_only k' = true).
-  { unfold F_C03_metachar_order in H3. cbn [negb andb] in H3.
-    pose proof (existsb_false _ _ _ H3 Hk') as E. now apply negb_false_iff in E. }
-  destruct (has_meta h) eqn:Mhm; cbn [negb].
-  2:{ (* h exact: nothing beats an exact host *)
-      destruct (has_meta k'); reflexivity. }
-  destruct (has_meta k') eqn:Mk'm; cbn [negb host_beats].
-  - (* both wildcards: the later one does not have the longer tail *)
-    apply Nat.ltb_ge. destruct (Nat.leb (length (lit_tail k')) (length (lit_tail h))) eqn:E;
-      [now apply Nat.leb_le in E|].
-    apply Nat.leb_gt in E. exfalso.
-    (* rev k' = rev (lit_tail k') ++ rest *)
-    destruct (take_lits_split (rev k')) as (rest & Ek & _ & _).
-    assert (Et : take_lits (rev k') = rev (lit_tail k')).
-    { unfold lit_tail. now rewrite rev_involutive. }
-    rewrite Et in Ek.
-    pose proof (longer_tail_first h nh (lit_tail k') rest Mhm Sh Mh Hbytes
-                  (tail_suffix k' nh Mk') E) as Hlt.
-    rewrite <- Ek in Hlt. unfold rev_ge in Hge. congruence.
-  - (* k' exact, h wildcard: impossible outside region 4 *)
-    exfalso. pose proof (glob_exact k' nh Mk'm Mk') as Enh.
-    assert (Hlen : (length (lit_tail h) < length nh)%nat).
-    { destruct (tail_suffix h nh Mh) as [x Hx].
-      destruct x as [|c x].
-      - (* the star matched the empty string: region 4 *)
-        exfalso. cbn [app] in Hx.
-        unfold F_C03_empty_star in H4. cbn [negb andb] in H4.
-        pose proof (existsb_false _ _ _ H4 Hh) as E4. cbn beta in E4.
-        rewrite (normalize_plain h tls (Hplain h Hh)) in E4. fold nh in E4.
-        rewrite (host_part_plain h Ch) in E4.
-        assert (Cnh : has_colon nh = false) by (rewrite <- Enh; exact Ck').
-        rewrite (host_part_plain nh Cnh), Mhm in E4. cbn [andb] in E4.
-        rewrite Hx, beq_refl in E4. discriminate.
-      - rewrite Hx, app_length. cbn [length]. lia. }
-    pose proof (longer_tail_first h nh nh [] Mhm Sh Mh Hbytes
-                  (ex_intro _ [] eq_refl) Hlen) as Hlt.
-    rewrite app_nil_r, <- Enh in Hlt. unfold rev_ge in Hge. congruence.
+  unfold region.
+  destruct (F_C03_gobwas_overlap globoff tls m t host uri); [discriminate|].
+  destruct (F_C03_metachar_order globoff tls t host); [discriminate|].
+  intros _. repeat split.
 Qed.
 
 (* ------------------------------------------------------------------ *)
-(** * lookup_unbeaten_on_domain *)
-Definition host_bytes_ok (host : str) (tls : bool) : Prop :=
-  forall c, In c (normalize_host host tls) -> 42 < c.
+(** * Where the selected key and the candidates' keys sit in the host list *)
+Lemma host_beats_irrefl a : host_beats a a = false.
+Proof. destruct a; cbn [host_beats]; try reflexivity. apply Nat.ltb_irrefl. Qed.
+
+Lemma host_beats_none a : host_beats HNone a = false.
+Proof. destruct a; reflexivity. Qed.
+
+Lemma host_beats_exact_r a : host_beats a HExact = false.
+Proof. destruct a; reflexivity. Qed.
 
 Lemma keys_of_all_routes t k p id : In (k, p, id) (all_routes t) -> In k (keys t).
 Proof.
@@ -362,6 +323,174 @@ Proof.
   unfold keys. apply in_map_iff. now exists (k, rs).
 Qed.
 
+Lemma host_list_keys t host tls globoff x :
+  wf_keys t -> In x (host_list t host tls globoff) -> In x (keys t).
+Proof.
+  intros Hwf Hx. unfold host_list in Hx. destruct globoff.
+  - now apply (matching_host_noglob_in t host tls x Hwf) in Hx as [Hx _].
+  - now apply (matching_hosts_in t host tls x Hwf) in Hx as [Hx _].
+Qed.
+
+(* the selected key is an element of (host list ++ [""]) none of whose predecessors has a
+   matching route; every candidate's key is that element or one of its successors *)
+Lemma lookup_position t host tls uri m globoff k p id :
+  table_ok t -> F_C03_gobwas_overlap globoff tls m t host uri = false ->
+  lookup t host tls uri m globoff = Some (k, p, id) ->
+  exists l1 l2,
+    host_list t host tls globoff ++ [[]] = l1 ++ k :: l2 /\
+    lookup1 t k uri m = Some (k, p, id) /\
+    forall k' p' id', In (k', p', id') (candidates t globoff tls m host uri) ->
+      (k' = k \/ In k' l2) /\ In k' (keys t) /\
+      In (p', id') (assoc t k') /\ path_match m uri p' = true /\
+      (k' = [] \/ spec_host_match globoff tls k' host = true).
+Proof.
+  intros Hok F6 Hl. pose proof (table_ok_wf t Hok) as Hwf.
+  destruct Hok as (Hplain & Hnd & Hsorted).
+  unfold lookup in Hl. fold (host_list t host tls globoff) in Hl.
+  apply first_some_split in Hl as (l1 & h & l2 & EL & H1 & Hl1).
+  pose proof H1 as H1'. apply lookup1_some in H1' as [Ek _].
+  assert (Hh : In h (host_list t host tls globoff ++ [[]])).
+  { rewrite EL. apply in_or_app. right. now left. }
+  assert (Hhl : lower h = h).
+  { apply in_app_or in Hh as [Hh | [<- | []]]; [|reflexivity].
+    exact (wf_keys_in t h Hwf (host_list_keys t host tls globoff h Hwf Hh)). }
+  rewrite Hhl in Ek. subst k.
+  exists l1, l2. split; [exact EL|]. split; [exact H1|].
+  intros k' p' id' Hc'. unfold candidates in Hc'. apply filter_In in Hc' as [Hall' Hcand'].
+  pose proof Hall' as Hrs. apply all_routes_in in Hrs as [rs' [Hin' Hp']].
+  rewrite <- (assoc_nodup t k' rs' Hnd Hin') in Hp'.
+  pose proof (keys_of_all_routes _ _ _ _ Hall') as Hkey'.
+  pose proof (wf_keys_in t k' Hwf Hkey') as Hlow'.
+  unfold is_candidate in Hcand'. apply andb_true_iff in Hcand' as [Hhost' Hpath'].
+  rewrite (no_dev_path _ _ _ _ _ _ _ _ _ F6 Hall') in Hpath'.
+  pose proof (lookup1_complete t k' uri m p' id' Hlow' Hp' Hpath') as Hans.
+  assert (Hk'nil : k' = [] \/ spec_host_match globoff tls k' host = true).
+  { apply orb_true_iff in Hhost' as [Hnil | Hh']; [left | now right].
+    destruct k'; [reflexivity | discriminate]. }
+  assert (HinL : In k' (host_list t host tls globoff ++ [[]])).
+  { apply in_or_app. destruct Hk'nil as [-> | Hh']; [right; now left | left].
+    unfold host_list. unfold spec_host_match in Hh'. destruct globoff.
+    - apply (matching_host_noglob_in t host tls k' Hwf). split; [exact Hkey' | exact Hh'].
+    - apply (matching_hosts_in t host tls k' Hwf). split; [exact Hkey'|].
+      now rewrite (no_dev_host _ _ _ _ _ _ _ F6 eq_refl Hkey'). }
+  rewrite EL in HinL. apply in_app_or in HinL as [Hbad | HinL].
+  { exfalso. apply Hans. now apply Hl1. }
+  repeat split; try assumption. destruct HinL as [<- | HinL]; [now left | now right].
+Qed.
+
+(* the host list is [exact hosts of S] ++ [patterns of S] for a list S sorted by reversed name *)
+Lemma host_list_shape t host tls globoff :
+  table_ok t ->
+  exists S, StronglySorted rev_ge S /\ host_list t host tls globoff = partition_exact S.
+Proof.
+  intros (Hplain & _ & _). rewrite Forall_forall in Hplain.
+  unfold host_list, matching_host_noglob, matching_hosts.
+  destruct globoff; apply sort_hosts_shape; intros x Hx.
+  - apply in_map_iff in Hx as [x0 [<- Hx0]]. apply filter_In in Hx0 as [Hx0 _].
+    destruct (Hplain x0 Hx0) as (-> & Hc & _). exact Hc.
+  - apply filter_In in Hx as [Hx _]. now destruct (Hplain x Hx) as (_ & Hc & _).
+Qed.
+
+(* ------------------------------------------------------------------ *)
+(** * An exact host beats every pattern (since /repo bc98e3c: no side condition) *)
+Theorem exact_beats_wildcard t host tls uri m k p id :
+  table_ok t ->
+  F_C03_gobwas_overlap false tls m t host uri = false ->
+  lookup t host tls uri m false = Some (k, p, id) ->
+  forall k' p' id', In (k', p', id') (candidates t false tls m host uri) ->
+    k' <> [] -> has_meta k' = false -> k <> [] /\ has_meta k = false.
+Proof.
+  intros Hok F6 Hl k' p' id' Hc Hk' Hm'.
+  pose proof (table_ok_wf t Hok) as Hwf.
+  destruct (lookup_position _ _ _ _ _ _ _ _ _ Hok F6 Hl) as (l1 & l2 & EL & _ & Hpos).
+  destruct (Hpos _ _ _ Hc) as (Hwhere & Hkey' & _).
+  destruct Hwhere as [<- | Hafter]; [now split|].
+  pose proof Hok as Hok'. destruct Hok' as (Hplain & _ & _). rewrite Forall_forall in Hplain.
+  destruct (is_exact_host k) eqn:Ex.
+  - (* the selected key is an exact host *)
+    destruct k as [|c k0]; [discriminate|]. split; [discriminate|].
+    assert (Hk : In (c :: k0) (host_list t host tls false)).
+    { assert (H : In (c :: k0) (host_list t host tls false ++ [[]])).
+      { rewrite EL. apply in_or_app. right. now left. }
+      apply in_app_or in H as [H | [H | []]]; [exact H | discriminate]. }
+    rewrite (is_exact_plain _ (Hplain _ (host_list_keys t host tls false _ Hwf Hk))) in Ex
+      by discriminate.
+    now apply negb_true_iff in Ex.
+  - (* it is not: then everything after it is a pattern or the empty key *)
+    exfalso. destruct (host_list_shape t host tls false Hok) as (S & _ & Eshape).
+    rewrite Eshape in EL. unfold partition_exact in EL. rewrite <- app_assoc in EL.
+    assert (HnE : ~ In k (filter is_exact_host S)).
+    { intros H. apply filter_In in H as [_ H]. congruence. }
+    destruct (app_split_right _ _ _ _ _ EL HnE) as [l1' E2].
+    assert (Hk'W : In k' (filter (fun h => negb (is_exact_host h)) S ++ [[]])).
+    { rewrite E2. apply in_or_app. right. now right. }
+    apply in_app_or in Hk'W as [Hk'W | [E | []]]; [|congruence].
+    apply filter_In in Hk'W as [_ Hk'W].
+    rewrite (is_exact_plain _ (Hplain _ Hkey') Hk'), Hm' in Hk'W. discriminate.
+Qed.
+
+(* ------------------------------------------------------------------ *)
+(** * Among patterns the longer literal host suffix comes first *)
+Definition host_bytes_ok (host : str) (tls : bool) : Prop :=
+  forall c, In c (normalize_host host tls) -> 42 < c.
+
+Lemma nth_error_skipn {A} n : forall (l : list A) x,
+  nth_error l n = Some x -> exists r, skipn n l = x :: r.
+Proof.
+  induction n as [|n IH]; intros [|a l] x H; cbn in H; try discriminate.
+  - injection H as ->. now exists l.
+  - cbn [skipn]. now apply IH.
+Qed.
+
+Lemma wild_order tls t host h k' :
+  table_ok t -> F_C03_metachar_order false tls t host = false -> host_bytes_ok host tls ->
+  In h (keys t) -> In k' (keys t) ->
+  glob_match h (normalize_host host tls) = true ->
+  glob_match k' (normalize_host host tls) = true ->
+  has_meta h = true -> has_meta k' = true -> rev_ge h k' ->
+  host_beats (host_class false tls k') (host_class false tls h) = false.
+Proof.
+  intros Hok F3 Hbytes Hh Hk' Mh Mk' Mhm Mk'm Hge.
+  destruct Hok as (Hplain & _ & _). rewrite Forall_forall in Hplain.
+  pose proof (Hplain h Hh) as Ph. pose proof (Hplain k' Hk') as Pk'.
+  unfold host_class. rewrite (normalize_plain h tls Ph), (normalize_plain k' tls Pk').
+  destruct Ph as (_ & Ch & _). destruct Pk' as (_ & Ck' & _).
+  rewrite (host_part_plain h Ch), (host_part_plain k' Ck'). cbn [orb].
+  set (nh := normalize_host host tls) in *.
+  destruct k' as [|c' k0']; [discriminate|]. destruct h as [|ch h0]; [discriminate|].
+  cbn [is_nil]. rewrite Mhm, Mk'm. cbn [negb host_beats].
+  set (k' := c' :: k0') in *. set (h := ch :: h0) in *.
+  apply Nat.ltb_ge. destruct (Nat.leb (length (lit_tail k')) (length (lit_tail h))) eqn:E;
+    [now apply Nat.leb_le in E|].
+  apply Nat.leb_gt in E. exfalso.
+  destruct (take_lits_split (rev k')) as (rest & Ek & _ & _).
+  assert (Et : take_lits (rev k') = rev (lit_tail k')).
+  { unfold lit_tail. now rewrite rev_involutive. }
+  rewrite Et in Ek.
+  assert (Hmd : forall m d, is_meta m = true ->
+            nth_error (rev h) (length (lit_tail h)) = Some m ->
+            nth_error (rev nh) (length (lit_tail h)) = Some d -> m < d).
+  { intros m d Hm Hnm Hnd.
+    assert (Hd : In d nh) by (apply in_rev; eapply nth_error_In; exact Hnd).
+    unfold is_meta in Hm. apply orb_true_iff in Hm as [Hm | Hm]; apply N.eqb_eq in Hm; subst m.
+    - now apply Hbytes.
+    - unfold F_C03_metachar_order in F3. cbn [negb andb] in F3.
+      pose proof (existsb_false _ _ _ F3 Hh) as E3. cbn beta zeta in E3.
+      rewrite (normalize_plain h tls (Hplain h Hh)), (host_part_plain h Ch) in E3.
+      fold nh in E3.
+      assert (Q : qmark_tail h = true).
+      { unfold qmark_tail. destruct (nth_error_skipn _ _ _ Hnm) as [r ->]. apply N.eqb_refl. }
+      rewrite Q in E3. cbn [andb] in E3. apply orb_false_iff in E3 as [E3 _].
+      unfold low_before in E3.
+      assert (Hs : has_suffix nh (lit_tail h) = true).
+      { apply has_suffix_spec. destruct (tail_suffix h nh Mh) as [x Hx]. now exists x. }
+      rewrite Hs, Hnd in E3. cbn [andb] in E3. apply N.leb_gt in E3. exact E3. }
+  pose proof (longer_tail_first h nh (lit_tail k') rest Mhm Mh (tail_suffix k' nh Mk') E Hmd) as Hlt.
+  rewrite <- Ek in Hlt. unfold rev_ge in Hge. congruence.
+Qed.
+
+(* ------------------------------------------------------------------ *)
+(** * lookup_unbeaten_on_domain *)
 Theorem lookup_unbeaten_on_domain t host tls uri m globoff c :
   table_ok t -> region t globoff tls m host uri = None -> host_bytes_ok host tls ->
   lookup t host tls uri m globoff = Some c ->
@@ -369,72 +498,59 @@ Theorem lookup_unbeaten_on_domain t host tls uri m globoff c :
 Proof.
   intros Hok Hreg Hbytes Hl c' Hc'.
   pose proof (table_ok_wf t Hok) as Hwf.
-  destruct (region_none _ _ _ _ _ _ Hreg) as (_ & F6 & F2 & F4 & F3).
-  destruct Hok as (Hplain & Hnd & Hsorted).
-  assert (Hok : table_ok t) by (repeat split; assumption).
-  unfold candidates in Hc'. apply filter_In in Hc' as [Hall' Hcand'].
-  destruct c' as [[k' p'] id']. destruct c as [[k p] id].
-  unfold lookup in Hl. fold (host_list t host tls globoff) in Hl.
-  apply first_some_split in Hl as (l1 & h & l2 & EL & H1 & Hl1).
-  pose proof H1 as H1'. apply lookup1_some in H1' as [Ek Hfind].
-  (* the candidate's own key answers, so it is not among the hosts tried in vain *)
-  pose proof Hall' as Hrs. apply all_routes_in in Hrs as [rs' [Hin' Hp']].
-  rewrite <- (assoc_nodup t k' rs' Hnd Hin') in Hp'.
-  pose proof (keys_of_all_routes _ _ _ _ Hall') as Hkey'.
-  destruct (wf_keys_in t k' Hwf Hkey') as [Hlow' _].
-  unfold is_candidate in Hcand'. apply andb_true_iff in Hcand' as [Hhost' Hpath'].
-  rewrite (no_dev_path _ _ _ _ _ _ _ _ _ F6 Hall') in Hpath'.
-  pose proof (lookup1_complete t k' uri m p' id' Hlow' Hp' Hpath') as Hans.
-  assert (HinL : In k' (host_list t host tls globoff ++ [[]])).
-  { apply in_or_app. apply orb_true_iff in Hhost' as [Hnil | Hh].
-    - right. destruct k'; [now left | discriminate].
-    - left. unfold host_list. unfold spec_host_match in Hh. destruct globoff.
-      + apply (matching_host_noglob_in t host tls k' Hwf). split; [exact Hkey' | exact Hh].
-      + apply (matching_hosts_in t host tls k' Hwf). split; [exact Hkey'|].
-        now rewrite (no_dev_host _ _ _ _ _ _ _ F6 eq_refl Hkey'). }
-  rewrite EL in HinL. apply in_app_or in HinL as [Hbad | HinL].
-  { exfalso. apply Hans. now apply Hl1. }
-  (* the host list, with the host-less entry appended, is sorted by reversed name *)
-  assert (Hcolon : forall x, In x (host_list t host tls globoff) -> In x (keys t)).
-  { intros x Hx. unfold host_list in Hx. destruct globoff.
-    - now apply (matching_host_noglob_in t host tls x Hwf) in Hx as [Hx _].
-    - now apply (matching_hosts_in t host tls x Hwf) in Hx as [Hx _]. }
-  assert (HS : StronglySorted rev_ge (host_list t host tls globoff ++ [[]])).
-  { apply sorted_snoc_nil. unfold host_list, matching_host_noglob, matching_hosts.
-    rewrite Forall_forall in Hplain.
-    destruct globoff; apply sort_hosts_sorted; intros x Hx.
-    - apply in_map_iff in Hx as [x0 [<- Hx0]]. apply filter_In in Hx0 as [Hx0 _].
-      destruct (Hplain x0 Hx0) as [-> Hc]. exact Hc.
-    - apply filter_In in Hx as [Hx _]. now destruct (Hplain x Hx). }
-  (* h is the empty key or a key of the table that matched *)
-  assert (Hh : In h (host_list t host tls globoff ++ [[]])).
-  { rewrite EL. apply in_or_app. right. now left. }
-  assert (Hhl : lower h = h).
-  { apply in_app_or in Hh as [Hh | [<- | []]]; [|reflexivity].
-    now destruct (wf_keys_in t h Hwf (Hcolon h Hh)). }
-  rewrite Hhl in Ek. subst k.
+  destruct (region_none _ _ _ _ _ _ Hreg) as (F6 & F3).
+  destruct c' as [[k' p'] id']. destruct c as [[h p] id].
+  destruct (lookup_position _ _ _ _ _ _ _ _ _ Hok F6 Hl) as (l1 & l2 & EL & H1 & Hpos).
+  destruct (Hpos _ _ _ Hc') as (Hwhere & Hkey' & Hp' & Hpath' & Hhost').
   unfold beats. apply orb_false_iff. split.
   - (* host order *)
-    destruct HinL as [<- | Hafter]; [apply host_beats_irrefl|].
-    rewrite EL in HS. pose proof (sorted_after rev_ge _ _ _ _ HS Hafter) as Hge.
+    destruct Hwhere as [<- | Hafter]; [apply host_beats_irrefl|].
     destruct k' as [|c0 k0]; [unfold host_class at 1; cbn [is_nil]; apply host_beats_none|].
-    destruct h as [|ch h0]; [apply rev_ge_nil in Hge; discriminate|].
-    apply in_app_or in Hh as [Hh | [E | []]]; [|discriminate].
-    cbn [is_nil orb] in Hhost'. unfold spec_host_match in Hhost'.
+    destruct Hhost' as [E | Hhost']; [discriminate|].
+    pose proof Hok as Hok'. destruct Hok' as (Hplain & _ & _). rewrite Forall_forall in Hplain.
+    destruct (host_list_shape t host tls globoff Hok) as (S & HS & Eshape).
+    (* if h is not an exact host, what follows it is sorted by reversed name *)
+    assert (Hrest : is_exact_host h = false ->
+                    rev_ge h (c0 :: k0) /\ is_exact_host (c0 :: k0) = false).
+    { intros Ex. rewrite Eshape in EL. unfold partition_exact in EL. rewrite <- app_assoc in EL.
+      assert (HnE : ~ In h (filter is_exact_host S)).
+      { intros H. apply filter_In in H as [_ H]. congruence. }
+      destruct (app_split_right _ _ _ _ _ EL HnE) as [l1' E2].
+      assert (HSW : StronglySorted rev_ge (filter (fun x => negb (is_exact_host x)) S ++ [[]])).
+      { apply sorted_snoc_nil. now apply sorted_filter. }
+      rewrite E2 in HSW. split; [exact (sorted_after rev_ge _ _ _ _ HSW Hafter)|].
+      assert (Hk'W : In (c0 :: k0) (filter (fun x => negb (is_exact_host x)) S ++ [[]])).
+      { rewrite E2. apply in_or_app. right. now right. }
+      apply in_app_or in Hk'W as [Hk'W | [E | []]]; [|discriminate].
+      apply filter_In in Hk'W as [_ Hk'W]. now apply negb_true_iff in Hk'W. }
+    destruct h as [|ch h0].
+    { (* the empty key: nothing non-empty follows it *)
+      destruct (Hrest eq_refl) as [Hge _]. apply rev_ge_nil in Hge. discriminate. }
     destruct globoff.
-    + (* glob matching disabled: every host key is exact *)
-      unfold host_class. cbn [is_nil orb]. reflexivity.
-    + unfold host_list in Hh. apply (matching_hosts_in t host tls _ Hwf) in Hh as [Hhk Hhm].
-      rewrite (no_dev_host _ _ _ _ _ _ _ F6 eq_refl Hhk) in Hhm.
-      rewrite Forall_forall in Hplain.
-      rewrite (normalize_plain _ tls (Hplain _ Hhk)) in Hhm.
-      rewrite (normalize_plain _ tls (Hplain _ Hkey')) in Hhost'.
-      now apply (later_never_beats_glob tls t host (ch :: h0) (c0 :: k0) Hok F4 F3 Hbytes Hhk Hkey').
+    { unfold host_class. cbn [is_nil orb]. reflexivity. }
+    assert (Hh : In (ch :: h0) (host_list t host tls false)).
+    { assert (H : In (ch :: h0) (host_list t host tls false ++ [[]])).
+      { rewrite EL. apply in_or_app. right. now left. }
+      apply in_app_or in H as [H | [H | []]]; [exact H | discriminate]. }
+    pose proof (host_list_keys t host tls false _ Hwf Hh) as Hhk.
+    destruct (has_meta (ch :: h0)) eqn:Mh.
+    2:{ unfold host_class at 2. rewrite (normalize_plain _ tls (Hplain _ Hhk)), Mh.
+        cbn [is_nil orb negb]. apply host_beats_exact_r. }
+    assert (Ex : is_exact_host (ch :: h0) = false).
+    { rewrite (is_exact_plain _ (Hplain _ Hhk)) by discriminate. now rewrite Mh. }
+    destruct (Hrest Ex) as [Hge Hk'W].
+    rewrite (is_exact_plain _ (Hplain _ Hkey')) in Hk'W by discriminate.
+    apply negb_false_iff in Hk'W.
+    unfold host_list in Hh. apply (matching_hosts_in t host tls _ Hwf) in Hh as [_ Hhm].
+    rewrite (no_dev_host _ _ _ _ _ _ _ F6 eq_refl Hhk) in Hhm.
+    rewrite (normalize_plain _ tls (Hplain _ Hhk)) in Hhm.
+    unfold spec_host_match in Hhost'. rewrite (normalize_plain _ tls (Hplain _ Hkey')) in Hhost'.
+    exact (wild_order tls t host _ _ Hok F3 Hbytes Hhk Hkey' Hhm Hhost' Mh Hk'W Hge).
   - (* same key: longest path *)
     destruct (beq k' h) eqn:Ekh; [|reflexivity]. apply beq_eq in Ekh. subst k'.
     destruct (is_prefix_matcher m) eqn:Epm; [|reflexivity]. cbn [andb].
-    apply Nat.ltb_ge.
-    apply (lookup1_longest t h uri m h p id Hsorted F2 Epm H1 p' id' Hp' Hpath').
+    apply Nat.ltb_ge. destruct Hok as (_ & _ & Hsorted).
+    apply (lookup1_longest t h uri m h p id Hsorted Epm H1 p' id' Hp' Hpath').
 Qed.
 
 (* ------------------------------------------------------------------ *)
@@ -448,7 +564,7 @@ Theorem lookup_meets_spec_on_domain t host tls uri m globoff :
 Proof.
   intros Hok Hreg Hbytes.
   pose proof (table_ok_wf t Hok) as Hwf.
-  destruct (region_none _ _ _ _ _ _ Hreg) as (_ & F6 & _ & _ & _).
+  destruct (region_none _ _ _ _ _ _ Hreg) as (F6 & _).
   unfold spec_b. destruct (lookup t host tls uri m globoff) as [c|] eqn:El.
   - apply andb_true_iff. split.
     + apply existsb_exists. exists c. split; [|apply cand_eqb_refl].
@@ -479,32 +595,6 @@ Proof.
   destruct (globoff || negb (has_meta (normalize_host (c :: k') tls))); discriminate.
 Qed.
 
-(* an exact host beats a wildcard host *)
-Corollary exact_beats_wildcard t host tls uri m k p id :
-  table_ok t -> region t false tls m host uri = None -> host_bytes_ok host tls ->
-  lookup t host tls uri m false = Some (k, p, id) ->
-  forall k' p' id', In (k', p', id') (candidates t false tls m host uri) ->
-    k' <> [] -> has_meta k' = false -> k <> [] -> has_meta k = false.
-Proof.
-  intros Hok Hreg Hb Hl k' p' id' Hc Hk' Hm' Hk.
-  pose proof (lookup_unbeaten_on_domain _ _ _ _ _ _ _ Hok Hreg Hb Hl _ Hc) as H.
-  unfold beats in H. apply orb_false_iff in H as [H _].
-  destruct Hok as (Hplain & _ & _). rewrite Forall_forall in Hplain.
-  assert (Hkey' : In k' (keys t)).
-  { unfold candidates in Hc. apply filter_In in Hc as [Hc _]. now apply keys_of_all_routes in Hc. }
-  assert (Hkey : In k (keys t)).
-  { destruct (region_none _ _ _ _ _ _ Hreg) as (_ & F6 & _).
-    assert (Hwf : wf_keys t).
-    { unfold wf_keys. apply Forall_forall. intros x Hx. destruct (Hplain x Hx) as [Hl' Hc'].
-      split; [exact Hl' | now apply rhp_stable_nocolon]. }
-    destruct (lookup_sound _ _ _ _ _ _ _ Hwf F6 Hl) as [Hin _]. now apply keys_of_all_routes in Hin. }
-  unfold host_class in H.
-  rewrite (normalize_plain k' tls (Hplain k' Hkey')), (normalize_plain k tls (Hplain k Hkey)) in H.
-  destruct k' as [|c' k0']; [congruence|]. destruct k as [|c k0]; [congruence|].
-  cbn [is_nil orb] in H. rewrite Hm' in H. cbn [negb] in H.
-  destruct (has_meta (c :: k0)); [cbn [negb host_beats] in H; discriminate | reflexivity].
-Qed.
-
 (* a longer literal host suffix beats a shorter one *)
 Corollary longer_suffix_first t host tls uri m k p id :
   table_ok t -> region t false tls m host uri = None -> host_bytes_ok host tls ->
@@ -516,18 +606,16 @@ Proof.
   intros Hok Hreg Hb Hl k' p' id' Hc Hm' Hm.
   pose proof (lookup_unbeaten_on_domain _ _ _ _ _ _ _ Hok Hreg Hb Hl _ Hc) as H.
   unfold beats in H. apply orb_false_iff in H as [H _].
+  pose proof (table_ok_wf t Hok) as Hwf.
   destruct Hok as (Hplain & Hnd & Hs). rewrite Forall_forall in Hplain.
   assert (Hkey' : In k' (keys t)).
   { unfold candidates in Hc. apply filter_In in Hc as [Hc _]. now apply keys_of_all_routes in Hc. }
   assert (Hkey : In k (keys t)).
-  { destruct (region_none _ _ _ _ _ _ Hreg) as (_ & F6 & _).
-    assert (Hwf : wf_keys t).
-    { unfold wf_keys. apply Forall_forall. intros x Hx. destruct (Hplain x Hx) as [Hl' Hc'].
-      split; [exact Hl' | now apply rhp_stable_nocolon]. }
+  { destruct (region_none _ _ _ _ _ _ Hreg) as (F6 & _).
     destruct (lookup_sound _ _ _ _ _ _ _ Hwf F6 Hl) as [Hin _]. now apply keys_of_all_routes in Hin. }
   unfold host_class in H.
   rewrite (normalize_plain k' tls (Hplain k' Hkey')), (normalize_plain k tls (Hplain k Hkey)) in H.
-  destruct (Hplain k' Hkey') as [_ C']. destruct (Hplain k Hkey) as [_ C].
+  destruct (Hplain k' Hkey') as (_ & C' & _). destruct (Hplain k Hkey) as (_ & C & _).
   rewrite (host_part_plain k' C'), (host_part_plain k C) in H.
   destruct k' as [|c' k0']; [discriminate|]. destruct k as [|c k0]; [discriminate|].
   cbn [is_nil orb] in H. rewrite Hm', Hm in H. cbn [negb host_beats] in H.
@@ -600,10 +688,25 @@ Proof.
   - apply N.eqb_eq in B. lia.
 Qed.
 
+Lemma unmodelled_lower h : existsb is_unmodelled (lower h) = existsb is_unmodelled h.
+Proof.
+  unfold lower. induction h as [|c h IH]; cbn [map existsb]; [reflexivity|].
+  rewrite IH. f_equal. unfold lower_byte, is_upper, is_unmodelled.
+  destruct ((65 <=? c) && (c <=? 90)) eqn:E; [|reflexivity].
+  apply andb_true_iff in E as [E1 E2]. apply N.leb_le in E1. apply N.leb_le in E2.
+  assert (A1 : (c + 32 =? 91) = false) by (apply N.eqb_neq; lia).
+  assert (A2 : (c + 32 =? 123) = false) by (apply N.eqb_neq; lia).
+  assert (A3 : (c + 32 =? 92) = false) by (apply N.eqb_neq; lia).
+  assert (B1 : (c =? 91) = false) by (apply N.eqb_neq; lia).
+  assert (B2 : (c =? 123) = false) by (apply N.eqb_neq; lia).
+  assert (B3 : (c =? 92) = false) by (apply N.eqb_neq; lia).
+  now rewrite A1, A2, A3, B1, B2, B3.
+Qed.
+
 Definition tbl_inv (t : table) : Prop := NoDup (keys t) /\ Forall key_plain (keys t).
 
 Lemma add_defs_inv defs : forall t,
-  (forall d, In d defs -> has_colon (fst (fst d)) = false) -> tbl_inv t ->
+  (forall d, In d defs -> has_colon (fst (fst d)) = false /\ existsb is_unmodelled (fst (fst d)) = false) -> tbl_inv t ->
   tbl_inv (fold_left (fun t d => let '(h, p, id) := d in add_route t (lower h) p id) defs t).
 Proof.
   induction defs as [|[[h p] id] defs IH]; intros t Hd Ht; cbn [fold_left]; [exact Ht|].
@@ -611,14 +714,16 @@ Proof.
   destruct Ht as [Hnd Hpl]. split; [now apply add_route_nodup|].
   rewrite Forall_forall in Hpl |- *. intros x Hx.
   apply add_route_keys_in in Hx as [-> | Hx]; [|now apply Hpl].
-  split; [apply lower_idem|]. rewrite has_colon_lower. apply (Hd (h, p, id)). now left.
+  destruct (Hd (h, p, id) (or_introl eq_refl)) as [Hc Hu]. cbn [fst] in Hc, Hu.
+  split; [apply lower_idem|]. split; [now rewrite has_colon_lower | now rewrite unmodelled_lower].
 Qed.
 
 Lemma new_table_keys defs : keys (new_table defs) = keys (add_defs defs).
 Proof. unfold new_table, keys. rewrite map_map. reflexivity. Qed.
 
 Theorem new_table_ok defs :
-  (forall d, In d defs -> has_colon (fst (fst d)) = false) -> table_ok (new_table defs).
+  (forall d, In d defs -> has_colon (fst (fst d)) = false /\ existsb is_unmodelled (fst (fst d)) = false) ->
+  table_ok (new_table defs).
 Proof.
   intros Hd. unfold table_ok. rewrite new_table_keys.
   destruct (add_defs_inv defs [] Hd) as [Hnd Hpl]; [split; constructor|].
